@@ -61,6 +61,7 @@ class World:
         self.consumed_by_failed = 0
         self.problems = []
         self.iters = {}
+        self.api = {"accepted": False, "closed": False}  # what the application has done through calls that returned normally
         self.ws = WebSocket({"type": "websocket", "path": "/", "headers": [], "query_string": b""}, self._receive, self._send)
         self.states = [(self.ws.client_state.value, self.ws.application_state.value)]
 
@@ -106,6 +107,23 @@ class World:
                 out = ("raise", type(e).__name__)
         self.states.append((ws.client_state.value, ws.application_state.value))
         fw = len(self.forwarded) - before_fw
+        # the application-side contract, independent of what reached the server
+        sends = ("send_text", "send_bytes", "raw_send")
+        if out[0] == "ok":
+            if op in sends and (self.api["closed"] or not self.api["accepted"]):
+                self.problems.append(f"{op} succeeded although the application had {'already closed' if self.api['closed'] else 'not accepted'} the connection")
+            if op in ("accept", "accept_sub", "raw_accept") and (self.api["accepted"] or self.api["closed"]):
+                self.problems.append(f"{op} succeeded a second time / after close")
+            if op in ("accept", "accept_sub", "raw_accept"):
+                self.api["accepted"] = True
+            if op in ("close", "close_1001", "raw_close"):
+                self.api["closed"] = True
+                if ws.application_state.value != 3:
+                    self.problems.append(f"after {op} returned, application_state is {ws.application_state.name}")
+        elif self.faulted_in_op and op in ("close", "close_1001", "raw_close"):
+            self.api["closed"] = True  # the close event did reach the server
+        elif self.faulted_in_op and op in ("accept", "accept_sub", "raw_accept"):
+            self.api["accepted"] = True  # the accept event did reach the server
         consumed = self.msgs[before_pos:self.pos]
         frames = [m for m in consumed if m["type"] == "websocket.receive"]
         if out[0] == "raise":
@@ -284,7 +302,7 @@ def run_shard(desc, tier):
 
 
 def classify(p):
-    for key, name in (("forwarded sequence illegal", "illegal-forwarded-sequence"), ("but forwarded", "raised-but-forwarded"), ("after websocket.disconnect", "receive-after-disconnect"),
+    for key, name in (("succeeded although", "illegal-call-succeeded"), ("succeeded a second time", "illegal-call-succeeded"), ("application_state is", "state-after-close"), ("forwarded sequence illegal", "illegal-forwarded-sequence"), ("but forwarded", "raised-but-forwarded"), ("after websocket.disconnect", "receive-after-disconnect"),
                       ("moved backwards", "state-backwards"), ("returned frames", "frames-order"), ("close events", "close-not-idempotent"), ("consumed", "frame-lost-or-wrong"), ("returned", "frame-lost-or-wrong")):
         if key in p:
             return name
@@ -346,6 +364,34 @@ def dispatch(r):
     async def session(ws):
         await ws.accept()
         await ws.close()
+
+    class ViewError(Exception):
+        pass
+
+    def failing(kind):
+        @A.websocket_session
+        async def v(ws):
+            if kind != "raise-first":
+                await ws.accept()
+            if kind == "close-then-raise":
+                await ws.close()
+            raise ViewError(kind)
+        return v
+
+    for kind in ("raise-first", "accept-then-raise", "close-then-raise"):
+        for ext in (False, True):
+            scope = {"type": "websocket", "path": "/", "headers": [], "query_string": b""}
+            if ext:
+                scope["extensions"] = {"websocket.http.response": {}}
+            sent, exc = drive(failing(kind), scope)
+            r.count("evaluations")
+            r.count("distinct_nontrivial")
+            st, prob = monitor(sent)
+            w = {"dispatch": "websocket_session:" + kind, "ext": ext}
+            if prob:
+                r.violation("dispatch:failing-view-illegal-sequence", w, f"websocket_session with a view that does {kind}: forwarded {[m['type'] for m in sent]}: {prob}")
+            elif not isinstance(exc, ViewError):
+                r.violation("dispatch:failing-view-exception-lost", w, f"websocket_session with a view that does {kind}: exception {exc!r} instead of the view's own")
 
     for app, name in ((view, "request_response"), (session, "websocket_session")):
         for typ in ("http", "websocket"):
